@@ -989,6 +989,8 @@ func runResponseStream(c *Ctx, n int, focus string) {
 			key = w.IdP2
 		case kr == 1 && (focus == "C02" || focus == "C01"):
 			key = w.Attacker
+		case kr == 2 && (focus == "C02" || focus == "C01" || focus == "C04"):
+			key = w.IdP1Look // signed by the attacker under a certificate that copies the trusted one's subject and key identifier
 		}
 		var mod func(*SignOpts)
 		if focus == "C02" {
